@@ -32,7 +32,12 @@ is a `Cfg` flag derived from the regenerated facts, so the model follows the sou
   start a tag is taken for end of input and the connection is dropped without a reply
   (`ReaderExit.eofTokenDrop`);
 * IDLE (authenticated) consumes exactly ONE further line: DONE → OK, any other command → BAD, a parse error
-  → NO, all tagged with the IDLE's tag; the error counter is not touched by that line;
+  → NO, all tagged with the IDLE's tag; the error counter is not touched by that line (since /repo 072b3ea the
+  OK / BAD is recorded and sent after the IDLE sender goroutine has written out what it had buffered; which
+  completion is written for which line is unchanged);
+* STILL in the code (`cause=bare-lf-swallows-next-line`): a failed `Parse` that stops with the line's own LF as
+  look-ahead (a line ended by a bare LF) is followed by `ConsumeInvalidInput`, which skips the NEXT line: that
+  line is never answered (`Parse.consumeInvalidInput`, `skipStopsAtLookaheadLF`);
 * DONE outside IDLE reaches `handleCommand`'s `default:` ("bad command"): NO.
 
 Not modelled: state updates arriving between commands (only through `Backend.invalid`), write errors on
